@@ -30,6 +30,7 @@ DEFAULT_PROFILE = {
     "p_invoke": 0.0,
     "p_hostile_names": 0.08,
     "p_shared_invoke_id": 0.0,
+    "p_multi_invoke": 0.0,
     "svc_kinds": ("sync",),
     "p_on_done": 0.7,
     "p_raise": 0.10,
@@ -479,6 +480,8 @@ class MachineGen:
                 self.add_after(n, nodes, root)
             if p["p_invoke"] and n is not root and rng.random() < p["p_invoke"]:
                 self.add_invoke(n, nodes, root)
+                if p.get("p_multi_invoke") and rng.random() < p["p_multi_invoke"]:
+                    self.add_invoke(n, nodes, root)   # several invokes on one state
         cfg = self.emit(root)
         cfg["context"] = {"n": 0, "a": 0}
         lo, hi = p["max_iterations"]
@@ -579,6 +582,8 @@ class MachineGen:
             # only between siblings of a compound parent: two invokes that can be active at once must have distinct ids
             sibs = [i for i in self.info["invoke"] if n.parent is not None and n.parent.kind == "compound"
                     and i["state"].rsplit(".", 1)[0] == n.parent.id and i["state"] != n.id]
+            mine = {i["id"] for i in self.info["invoke"] if i["state"] == n.id}
+            sibs = [i for i in sibs if i["id"] not in mine]
             if sibs:
                 inv["id"] = rng.choice(sibs)["id"]
         if rng.random() < 0.5:
@@ -588,7 +593,11 @@ class MachineGen:
         if rng.random() < 0.7:
             tgt, re = self.pick_target(n, nodes, root)
             inv["onError"] = self.tcfg(n, tgt, re, None)
-        n.cfg["invoke"] = inv
+        if "invoke" in n.cfg:
+            prev = n.cfg["invoke"]
+            n.cfg["invoke"] = (prev if isinstance(prev, list) else [prev]) + [inv]
+        else:
+            n.cfg["invoke"] = inv
         self.info["invoke"].append({"state": n.id, "id": inv["id"], "src": sname, "kind": kind})
 
     def emit(self, n):
